@@ -49,6 +49,40 @@ def us_g2(rng, tier):
     return us
 
 
+_KERNEL = {}
+
+
+def iso11_kernel_points(rng):
+    """points of E1' in the kernel of the 11-isogeny (roots of the x- and y-denominators that are x-coordinates of Fp-points),
+    and field elements u whose SSWU image is such a point"""
+    if "pts" in _KERNEL:
+        return _KERNEL["pts"], _KERNEL["us"]
+    from py_ecc.optimized_bls12_381 import constants as K
+    A, B, Z = _iso_params(1)
+    co = K.ISO_11_MAP_COEFFICIENTS
+    toint = lambda c: int(c.n) if hasattr(c, "n") else int(c)  # noqa: E731
+    xs = set(O.poly_roots_fp([toint(c) for c in co[1]], P, rng)) | set(O.poly_roots_fp([toint(c) for c in co[3]], P, rng))
+    pts, us = [], []
+    for x in sorted(xs):
+        X = O.Fp(x, P)
+        y = (X * X * X + A * X + B).sqrt()
+        if y is None:
+            continue
+        pts.append((X, y))
+        # invert SSWU: x1 = (-B/A)(1 + 1/(t^2 + t)), t = Z u^2  =>  t^2 + t - 1/c = 0 with c = -A x / B - 1 ; or x = Z u^2 x1
+        c = (X * A * (-1)) / B - 1
+        if not c.is_zero():
+            disc = (c.like(1) + c.like(4) / c).sqrt()
+            if disc is not None:
+                for sg in (1, -1):
+                    t = (disc * sg - 1) / 2
+                    u = (t / Z).sqrt()
+                    if u is not None:
+                        us += [u.v, (-u).v]
+    _KERNEL["pts"], _KERNEL["us"] = pts, us
+    return pts, us
+
+
 def _h2c_case(op, hname, msg, dst):
     from py_ecc.bls import hash_to_curve as H2C
     import pyexec
@@ -67,6 +101,24 @@ def cases(rng, tier):
     for u in us_g2(rng, tier):
         cs.append(Case("h2c.swu_g2", [tl(u)]))
         cs.append(Case("h2c.map_g2", [tl(u)]))
+    # the isogeny maps on their own: generic points of the isogenous curves in random projective scalings, and the rational
+    # kernel of the 11-isogeny (image = the point at infinity)
+    A1, B1, Z1_ = _iso_params(1)
+    kpts, kus = iso11_kernel_points(rng)
+    for (X, Y) in kpts:
+        for sc in (1, rng.randrange(2, P)):
+            cs.append(Case("h2c.iso_g1", [tl([X.v * sc % P]), tl([Y.v * sc % P]), tl([sc])], tags=("iso-kernel",)))
+    for u in kus[:8]:
+        cs.append(Case("h2c.map_g1", [tl([u])], tags=("iso-kernel",)))
+        cs.append(Case("h2c.swu_g1", [tl([u])], tags=("iso-kernel",)))
+    for _ in range(3 if tier == "quick" else 12):
+        sw = O.sswu(O.Fp(rng.randrange(P), P), A1, B1, Z1_)
+        sc = rng.randrange(1, P)
+        cs.append(Case("h2c.iso_g1", [tl([sw[0].v * sc % P]), tl([sw[1].v * sc % P]), tl([sc])]))
+        A2, B2, Z2_ = _iso_params(2)
+        sw2 = O.sswu(O.Fp2(rng.randrange(P), rng.randrange(P), P), A2, B2, Z2_)
+        s2 = O.Fp2(rng.randrange(1, P), rng.randrange(P), P)
+        cs.append(Case("h2c.iso_g2", [tl((sw2[0] * s2).coeffs()), tl((sw2[1] * s2).coeffs()), tl(s2.coeffs())]))
     for _ in range(3 if tier == "quick" else 20):
         a, b = rng.randrange(P), rng.randrange(1, P)
         cs.append(Case("h2c.sqrt_div_fq", [tl([a]), tl([b])]))
@@ -125,6 +177,40 @@ def map_pred(grp, u):
     return (not bad, f"map_to_curve_G{grp}: {bad} at u={u}")
 
 
+def iso_kernel_pred(which, val):
+    """kernel of the 11-isogeny: iso_map_G1 / map_to_curve_G1 must return the point at infinity (z = 0), never an off-curve triple"""
+    from py_ecc.bls import hash_to_curve as H2C
+    from py_ecc.fields import optimized_bls12_381_FQ as FQ
+    from py_ecc.optimized_bls12_381 import add, b, is_inf, is_on_curve, optimized_swu as S
+    if which == "pt":
+        x, y, sc = val
+        out = S.iso_map_G1(FQ(x * sc), FQ(y * sc), FQ(sc))
+    else:
+        out = H2C.map_to_curve_G1(FQ(val))
+    bad = []
+    if not is_on_curve(out, b):
+        bad.append("image is not on the curve")
+    if not is_inf(out):
+        bad.append("image of a kernel point is not the point at infinity")
+    if which == "u":
+        other = H2C.map_to_curve_G1(FQ(5))
+        cl = H2C.clear_cofactor_G1(add(out, other))
+        if not is_on_curve(cl, b) or not pt_eq(from_lib_p3(cl), from_lib_p3(H2C.clear_cofactor_G1(other))):
+            bad.append("clear_cofactor(map(u) + Q) != clear_cofactor(Q)")
+    return (not bad, f"11-isogeny kernel ({which}={str(val)[:40]}..): {bad}")
+
+
+def multi_hash_history_pred(grp, msg, dst):
+    """one interpreter: the same (message, tag) hashed with different hash functions, in both orders — each = the RFC point for THAT hash"""
+    bad = []
+    for order in (("sha256", "sha512", "sha3_256", "sha256"), ("sha512", "sha256", "blake2b", "sha512")):
+        for h in order:
+            ok, detail = hash_pred(grp, msg, dst, h)
+            if not ok:
+                bad.append(f"{h} after {order}: {detail[:120]}")
+    return (not bad, f"hash_to_G{grp} with several hash functions in one process: {bad[:3]}")
+
+
 def hash_pred(grp, msg, dst, hname):
     """hash_to_G: = clear_cofactor(map(u0) + map(u1)) with u from the independent hash_to_field; on curve; in subgroup"""
     from py_ecc.bls import hash_to_curve as H2C
@@ -176,7 +262,13 @@ def rfc_vector_pred():
 
 
 def predicates(rng, tier, only=None):
-    ps = [Pred("rfc-vector", rfc_vector_pred, ())]
+    ps = [Pred("rfc-vector", rfc_vector_pred, ()),
+          Pred("hash-to-curve", multi_hash_history_pred, (2, b"history", b"tag")), Pred("hash-to-curve", multi_hash_history_pred, (1, b"history", b"tag"))]
+    kpts, kus = iso11_kernel_points(rng)
+    for (X, Y) in kpts[:6]:
+        ps.append(Pred("isogeny-kernel", iso_kernel_pred, ("pt", (X.v, Y.v, rng.randrange(1, P)))))
+    for u in kus[:6]:
+        ps.append(Pred("isogeny-kernel", iso_kernel_pred, ("u", u)))
     for u in us_g1(rng, tier):
         ps.append(Pred("sswu-rfc", swu_pred, (1, [u])))
         ps.append(Pred("map-on-curve", map_pred, (1, [u])))
